@@ -126,9 +126,18 @@ def gen_table(rng, i):
     if xd == "foreign":
         fr = sorted(rng.sample(range(start - 2, start + nfr + 2), rng.randint(1, nfr)))
         foreign = {str(f): [rng.randint(-40, 40) for _ in range(ndim)] for f in fr}
-    return dict(stream="table", ndim=ndim, mode=mode, rows=rows, cols=cols,
-                layout=LAYOUTS[i % len(LAYOUTS)] if rng.random() < 0.7 else rng.choice(LAYOUTS),
-                shuffle2=rng.randint(0, 10 ** 6), xdrift=xd, foreign=foreign, rigid=rigid)
+    out = dict(stream="table", ndim=ndim, mode=mode, rows=rows, cols=cols,
+               layout=LAYOUTS[i % len(LAYOUTS)] if rng.random() < 0.7 else rng.choice(LAYOUTS),
+               shuffle2=rng.randint(0, 10 ** 6), xdrift=xd, foreign=foreign, rigid=rigid)
+    # whole-pixel positions stored in an INTEGER column (pixel coordinates of maxima, rounded
+    # positions): the measured drift is still fractional (a mean), so position - drift is not
+    if rng.random() < 0.2:
+        for r in rows:
+            r["pos"] = [8 * v for v in r["pos"]]
+        if rigid is not None:
+            out["rigid"] = {f: [8 * v for v in vv] for f, vv in rigid.items()}
+        out["int_pos"] = rng.choice(["int64", "int32"])
+    return out
 
 
 def gen_cases(ctx):
@@ -183,6 +192,8 @@ def build_frame(inp, order=None):
         if c in NAMES:
             k = NAMES.index(c)
             data[c] = np.array([rows[i]["pos"][k] / 8.0 for i in idx], dtype=float)
+            if inp.get("int_pos"):
+                data[c] = data[c].astype(inp["int_pos"])
         elif c == "mass":
             data[c] = np.array([rows[i]["mass"] for i in idx], dtype=np.int64)
         elif c == "frame":
